@@ -83,6 +83,7 @@ func (r *Router) RestoreLastSavedState() error {
 		r.services = NewServiceMap()
 		for _, service := range services {
 			r.services.Set(service)
+			verifEvent("restored", service, service.active, service.rollout)
 		}
 
 		return nil
